@@ -55,9 +55,18 @@ def main():
             for n in sorted(os.listdir(b)):
                 if os.path.exists(os.path.join(b, n, "patch.diff")) and (not args or n in args or any(n.startswith(a) for a in args)):
                     dirs.append(os.path.join(b, n))
+    results = {}
+    rp = os.path.join(VERIF, "seeded", "RESULTS.json")
+    if os.path.exists(rp):
+        results = json.load(open(rp))
     with ThreadPoolExecutor(8 if tier == "quick" else 1) as ex:
         for name, prop, res, dt, out in ex.map(one, [(d, tier, seed) for d in dirs]):
             caught = "exit1" in res
             print("%-14s %-5s %-28s %5.0fs %s" % (name, prop, res, dt, "CAUGHT" if caught else "MISSED"), flush=True)
             if out.strip(): print("    " + out.strip().replace("\n", "\n    "))
+            buckets = sorted({l.split("bucket ", 1)[1].split(" (x", 1)[0] for l in out.splitlines() if "bucket " in l})
+            results[name] = {"property": prop, "tier": tier, "seed": seed, "result": res, "caught": caught,
+                             "seconds": round(dt), "buckets": buckets[:6],
+                             "repo_head": subprocess.check_output(["git", "-C", "/repo", "log", "--format=%h", "-1"], text=True).strip()}
+    json.dump(results, open(rp, "w"), indent=1, sort_keys=True)
 main()
